@@ -114,7 +114,10 @@ pub struct SimConfig {
     pub seed_fs: u64,
     pub seed_claim: u64,
     pub strategy: Strategy,
+    /// probability of a stall fault before a frequent operation (lock, claim, probe)
     pub stall_prob: f64,
+    /// probability of a stall fault before a publishing operation (atomic store / RMW)
+    pub stall_prob_store: f64,
     pub stall_max_len: u64,
     pub slow_max: u64,
     pub stale: Option<StaleCfg>,
@@ -144,6 +147,7 @@ impl SimConfig {
             seed_claim: seed ^ 4,
             strategy: Strategy::Default,
             stall_prob: 0.0,
+            stall_prob_store: 0.0,
             stall_max_len: 0,
             slow_max: 1,
             stale: None,
@@ -469,11 +473,22 @@ impl Scheduler for SimScheduler {
             };
             let replaying = sim.cfg.replay.is_some();
             // stall fault: the current task is about to perform a publishing/claiming operation
-            if !replaying && cur_runnable && sim.cfg.stall_prob > 0.0 && ids.len() > 1 {
+            if !replaying
+                && cur_runnable
+                && (sim.cfg.stall_prob > 0.0 || sim.cfg.stall_prob_store > 0.0)
+                && ids.len() > 1
+            {
                 let c = cur.unwrap();
-                if stall_eligible(sim.tasks[c].pending)
+                let k = sim.tasks[c].pending;
+                let p = if matches!(k, OpKind::AtomicStore | OpKind::AtomicRmw) {
+                    sim.cfg.stall_prob_store
+                } else {
+                    sim.cfg.stall_prob
+                };
+                if stall_eligible(k)
+                    && p > 0.0
                     && sim.tasks[c].stalled_until <= step
-                    && sim.fault_rng.chance(sim.cfg.stall_prob)
+                    && sim.fault_rng.chance(p)
                 {
                     let len = 1 + sim.fault_rng.below(sim.cfg.stall_max_len.max(1));
                     sim.tasks[c].stalled_until = step + len;
